@@ -4,7 +4,7 @@ from contracts import sftp_file
 ID = "C29"
 F = "paramiko.sftp_file.SFTPFile."
 TARGETS = [F + "_write", F + "_close", "paramiko.sftp_client.SFTPClient._transfer_with_callback",
-           F + "_async_response::part[status]", (F + "_check_exception", "saved-exception", {}),
+           (F + "_check_exception", "saved-exception", {}),
            "paramiko.sftp_client.SFTPClient._read_response"]
 REPLAY = {"*": "c29.replay_transfers", "registered_under_their_file": "c29.pipelined_reject_with_request_between",
           "saved": "c29.pipelined_reject_with_request_between"}
@@ -15,6 +15,22 @@ def setup(E):
     sftp_file.declare_status(E)
     sftp_file.declare_dispatch(E)
     sftp_file.declare_transfer(E)
+    # SFTPFile._async_response as a whole (contract shared with C28): a refused status is saved, an end-of-file answer
+    # to a prefetch read is not an error, the status of a queued write retires no read request
+    from contracts import prefetch
+    E2 = type(E)()
+    prefetch.declare(E2)
+    prefetch.declare_answers(E2)
+    prefetch.declare_requests(E2)
+    qn = F + "_async_response"
+    global TARGETS
+    TARGETS = [t for t in TARGETS if not (isinstance(t, tuple) and t[1] == "answers")]
+    TARGETS.append((qn, "answers", dict(E2.contracts[qn], **{
+        "+replace": True, "+contracts": {k: v for k, v in E2.contracts.items() if k != qn},
+        "+fields": {c: dict(d["fields"]) for c, d in E2.classdecl.items()},
+        "+engine": {"auto_opaque": True, "ghost_types": dict(E.ghost_types, **E2.ghost_types),
+                    "opaque_exc": dict(E2.opaque_exc), "opaque_iter": dict(E2.opaque_iter),
+                    "opaque_attrs": dict(getattr(E, "opaque_attrs", {}), **getattr(E2, "opaque_attrs", {}))}})))
 
 
 CLAIMED = True
@@ -23,7 +39,7 @@ LEVEL_TEXT = ("Proof on the real AST with a ghost count of write requests whose 
               "equal to that count, issues one request of at most 32768 bytes and, when not pipelined, reads every status "
               "before returning (a refusal is raised by the status conversion); SFTPClient._read_response hands every "
               "response it takes off the wire and does not return to the owner of that very request (debt ghost settled in "
-              "every loop iteration), and returns only the awaited one; SFTPFile._async_response saves a refused status; "
+              "every loop iteration), and returns only the awaited one; SFTPFile._async_response (whole function, contract shared with C28) saves a refused status; "
               "_check_exception raises what was saved; SFTPFile._close returns normally (outside garbage collection) only "
               "after the status of every write still in flight has been read or found already dispatched, including writes "
               "issued by the final flush, and after raising a saved refusal - so a rejected pipelined write surfaces as an "
